@@ -652,6 +652,12 @@ def build(spec):
             tb = add_proxy_block(m)
         ir.cfg.add(gtirb.Edge(sb, tb, gtirb.Edge.Label(getattr(ET, typ), cond, direct)))
     w.funcs = gtirb_functions.Function.build_functions(m) if spec.get("functions", True) else []
+    # aux tables the module is to come without ("absent") or with nothing in them ("empty": what it must then be)
+    for name, mode in (spec.get("tables") or {}).items():
+        if mode == "absent":
+            m.aux_data.pop(name, None)
+        elif mode == "empty" and name in m.aux_data and m.aux_data[name].data:
+            raise ValueError("spec asks for an empty %s table but the module has entries" % name)
     return w
 
 
